@@ -70,11 +70,13 @@ def make_grid_forcing(fname, times_s, imax=12, jmax=10, N=3, h=None, mask=None,
         nc.createVariable("Cs_w", "f8", ("s_w",))[:] = (-1.0 + np.arange(N + 1) / N) if Cs_w is None else Cs_w
         if vtransform is not None:
             nc.createVariable("Vtransform", "i4", ())[...] = vtransform
+    # scale_uv: one factor for both components, or a pair (factor of u, factor of v) as per-variable packing produces
+    su, sv = (scale_uv if isinstance(scale_uv, (tuple, list)) else (scale_uv, scale_uv)) if scale_uv else (None, None)
     if scale_uv:
         U = nc.createVariable("u", "i2", ("ocean_time", "s_rho", "eta_u", "xi_u"))
         V = nc.createVariable("v", "i2", ("ocean_time", "s_rho", "eta_v", "xi_v"))
-        for X in (U, V):
-            X.scale_factor = np.float32(scale_uv); X.add_offset = np.float32(0.0)
+        for X, sc_ in ((U, su), (V, sv)):
+            X.scale_factor = np.float32(sc_); X.add_offset = np.float32(0.0)
             X.set_auto_maskandscale(False)
     else:
         U = nc.createVariable("u", "f4", ("ocean_time", "s_rho", "eta_u", "xi_u"))
@@ -82,10 +84,10 @@ def make_grid_forcing(fname, times_s, imax=12, jmax=10, N=3, h=None, mask=None,
     for n, t in enumerate(times_s):
         k, j, i = np.meshgrid(np.arange(N), np.arange(jmax), np.arange(imax - 1), indexing="ij")
         val = (u(t, k, j, i) if u else 0 * k) + 0.0 * k
-        U[n] = np.rint(val / scale_uv).astype("i2") if scale_uv else val
+        U[n] = np.rint(val / su).astype("i2") if scale_uv else val
         k, j, i = np.meshgrid(np.arange(N), np.arange(jmax - 1), np.arange(imax), indexing="ij")
         val = (v(t, k, j, i) if v else 0 * k) + 0.0 * k
-        V[n] = np.rint(val / scale_uv).astype("i2") if scale_uv else val
+        V[n] = np.rint(val / sv).astype("i2") if scale_uv else val
     allscal = dict(scal or {})
     if w is not None:
         allscal["w"] = w
